@@ -24,6 +24,101 @@ from ..tlc import cfg
 
 NEEDS_EXT = True
 
+
+# ---- a parallel map that survives the death of a worker ------------------------------------------------
+def safe_pmap(fn, items, chunk=None, max_crashes=8):
+    """fork-parallel map like vh.par.pmap, but a worker process killed by the code under test (a segfault in the
+    compiled engine) does not hang or kill the run: the item it was working on is returned as
+    {"crashed": True, "item": item, "exit": exitcode} and the rest of its chunk is given to a new worker."""
+    import collections
+    import multiprocessing as mp
+    import os
+    from multiprocessing.connection import wait
+    items = list(items)
+    n = len(items)
+    out = [None] * n
+    if n == 0:
+        return out
+    nproc = max(1, min(16, os.cpu_count() or 1, int(os.environ.get("VH_MAX_WORKERS", "16"))))
+    chunk = chunk or max(1, min(1000, n // (nproc * 4) or 1))
+    todo = collections.deque((a, min(n, a + chunk)) for a in range(0, n, chunk))
+    mpc = mp.get_context("fork")
+    live = {}
+    crashes = 0
+
+    def work(start, stop, w):
+        batch = []
+        for i in range(start, stop):
+            w.send(("at", i))
+            batch.append((i, fn(items[i])))
+            if len(batch) >= 50:
+                w.send(("res", batch)); batch = []
+        w.send(("res", batch))
+        w.close()
+
+    while todo or live:
+        while todo and len(live) < nproc:
+            start, stop = todo.popleft()
+            r, w = mpc.Pipe(duplex=False)
+            p = mpc.Process(target=work, args=(start, stop, w))
+            p.start()
+            w.close()
+            live[r] = [p, start, stop, start]
+        for r in wait(list(live)):
+            rec = live[r]
+            try:
+                tag, val = r.recv()
+                if tag == "at":
+                    rec[3] = val
+                else:
+                    for i, res in val:
+                        out[i] = res
+                    if val:
+                        rec[3] = max(rec[3], val[-1][0] + 1)
+            except (EOFError, OSError):
+                rec[0].join()
+                r.close()
+                del live[r]
+                first_missing = next((i for i in range(rec[1], rec[2]) if out[i] is None), None)
+                if first_missing is not None:
+                    # results of a batch may be lost with the worker: the crashing item is the one it announced last
+                    bad = rec[3] if rec[3] < rec[2] else first_missing
+                    if rec[0].exitcode == 0:
+                        raise MachineryError("worker ended without delivering its results")
+                    crashes += 1
+                    out[bad] = {"crashed": True, "item": items[bad], "exit": rec[0].exitcode}
+                    if crashes <= max_crashes:
+                        lost = [i for i in range(rec[1], rec[2]) if out[i] is None]
+                        # re-run what was lost, as runs of consecutive indices
+                        k = 0
+                        while k < len(lost):
+                            m = k
+                            while m + 1 < len(lost) and lost[m + 1] == lost[m] + 1:
+                                m += 1
+                            todo.appendleft((lost[k], lost[m] + 1))
+                            k = m + 1
+    return [o for o in out if o is not None]
+
+
+def _split_crashes(recs):
+    return [r for r in recs if not r.get("crashed")], [r for r in recs if r.get("crashed")]
+
+
+def report_crashes(ctx, crashed, what):
+    """a process killed while executing esutil code is not an outcome any clause allows"""
+    for r in crashed:
+        i, c = r["item"]
+        if "calls" in c:
+            ctx.violation("Binner.history|interpreter_killed|%s" % rep_class(c.get("rep", "f8")),
+                          "the interpreter was killed (exit %s) while one Binner object executed a history of calls" % r["exit"],
+                          {"kind": "history", "h": c, "id": i})
+        elif "vals" in c:
+            ctx.violation("histogram.scale|interpreter_killed|%s" % c["mode"],
+                          "the interpreter was killed (exit %s) while histogramming" % r["exit"], {"kind": "scale", "sc": c, "id": i})
+        else:
+            ctx.violation("histogram|interpreter_killed|%s" % struct_class(c),
+                          "the interpreter was killed (exit %s) while histogramming" % r["exit"], {"kind": "lattice", "c": c, "concrete": i})
+
 # ---- representations of the data argument (HistMC.tla: RepSeq / ScalarSeq) ----------------------
 REPS = ["f8", "f8be", "f4", "f4be", "i2", "i4", "i4be", "i8", "u1", "u4", "list", "intlist", "tuple",
         "strided2", "strided3", "reversed", "col2d", "rec12", "rec20", "rec12be", "reci4", "recf4", "readonly"]
@@ -286,6 +381,10 @@ def engines_agree_offlattice(args):
     a, b = observe(xr, kw, "c", True, entry, buf), observe(xr, kw, "py", True, entry, buf)
     same = (a["err"], a["hist"], a["rev"]) == (b["err"], b["hist"], b["rev"])
     return None if same else {"x": x.tolist(), "kw": kw, "rep": rep, "entry": entry, "c": a, "py": b}
+
+
+def _offlattice_item(args):
+    return {"diff": engines_agree_offlattice(args)}
 
 
 # ---- object histories -----------------------------------------------------------------------------
@@ -642,42 +741,52 @@ def run(ctx):
                   workers=4, allow_violation=True, coverage=False)
     if "ObjRefines" not in r1d.violated:
         raise MachineryError("self-test failed: ObjRefines not violated by the object that caches the selection")
-    recs = pmap(run_case, list(enumerate(cases, 1)))
+    recs, dead = _split_crashes(safe_pmap(run_case, list(enumerate(cases, 1))))
+    report_crashes(ctx, dead, "cases")
     for r in recs:
         ctx.count(r["c"])
     for r in recs[:: max(1, len(recs) // 4)][:4]:
         ctx.sample({"case": r["c"], "observed": r["obs"][0]})
     judge(ctx, recs, "judge replayed cases (HistTrace)")
-    hrecs = pmap(run_history, list(enumerate(hists, 1)))
+    hrecs, dead = _split_crashes(safe_pmap(run_history, list(enumerate(hists, 1))))
+    report_crashes(ctx, dead, "histories")
     for r in hrecs:
         ctx.count(r["h"])
     ctx.sample({"history": hrecs[len(hrecs) // 2]["h"], "observed": hrecs[len(hrecs) // 2]["steps"]})
     judge_histories(ctx, hrecs, "judge replayed object histories (HistTrace)")
-    drecs = pmap(run_history, list(enumerate(deep, len(hrecs) + 1)))
+    drecs, dead = _split_crashes(safe_pmap(run_history, list(enumerate(deep, len(hists) + 1))))
+    report_crashes(ctx, dead, "long histories")
     for r in drecs:
         ctx.count(r["h"])
     judge_histories(ctx, drecs, "judge simulated long histories (HistTrace)", shard_size=100 if ctx.quick else 600)
     # 2c. scale: few distinct values, numbers of data across and at the engines' block boundaries, judged through the law
-    srecs = pmap(run_scale, list(enumerate(scales, 1)), chunk=2)
+    srecs, dead = _split_crashes(safe_pmap(run_scale, list(enumerate(scales, 1)), chunk=2))
+    report_crashes(ctx, dead, "scale cases")
     for r in srecs:
         ctx.count(r["sc"])
     judge_scale(ctx, srecs, "judge scale cases (HistTrace)")
     # 3. larger seeded cases and histories, code -> spec
     nrand, maxlen = (400, 60) if ctx.quick else (6000, 200)
-    rc = random_cases(random.Random(ctx.seed), nrand, maxlen, len(recs) + 1)
-    rrecs = pmap(run_case, rc)
+    rc = random_cases(random.Random(ctx.seed), nrand, maxlen, len(cases) + 1)
+    rrecs, dead = _split_crashes(safe_pmap(run_case, rc))
+    report_crashes(ctx, dead, "seeded cases")
     for r in rrecs:
         ctx.count(r["c"])
     judge(ctx, rrecs, "judge seeded larger cases (HistTrace)", shard_size=1200)      # long arrays: ~50 ms per record
     nhist, hmaxlen = (300, 60) if ctx.quick else (3000, 60)
-    rh = random_histories(random.Random(ctx.seed + 7919), nhist, hmaxlen, len(hrecs) + len(drecs) + 1)
-    rhrecs = pmap(run_history, rh)
+    rh = random_histories(random.Random(ctx.seed + 7919), nhist, hmaxlen, len(hists) + len(deep) + 1)
+    rhrecs, dead = _split_crashes(safe_pmap(run_history, rh))
+    report_crashes(ctx, dead, "seeded histories")
     for r in rhrecs:
         ctx.count(r["h"])
     judge_histories(ctx, rhrecs, "judge seeded longer histories (HistTrace)", shard_size=100 if ctx.quick else 600)
     # 4. engines agree bit-for-bit off the lattice (two implementation outputs; no oracle)
     noff = 2000 if ctx.quick else 40000
-    bad = [b for b in pmap(engines_agree_offlattice, [(ctx.seed * 1000003 + k,) for k in range(noff)]) if b]
+    offl, dead = _split_crashes(safe_pmap(_offlattice_item, [(ctx.seed * 1000003 + k,) for k in range(noff)]))
+    for r in dead:
+        ctx.violation("histogram|interpreter_killed|offlattice", "the interpreter was killed (exit %s) while histogramming" % r["exit"],
+                      {"kind": "offlattice_seed", "seed": r["item"][0]})
+    bad = [b["diff"] for b in offl if b["diff"]]
     ctx.evaluations += noff
     for b in bad:
         ctx.violation("histogram|engines_differ|offlattice", "C and Python engines return different arrays", dict(b, kind="offlattice"))
@@ -741,6 +850,13 @@ def replay(ctx, case):
         if (a["err"], a["hist"], a["rev"]) != (b["err"], b["hist"], b["rev"]):
             ctx.violation("histogram|engines_differ|offlattice", "C and Python engines differ", case)
         return
+    if case.get("kind") in ("scale", "history", "lattice", None):
+        fn, item = {"scale": (run_scale, (case.get("id", 1), case.get("sc"))), "history": (run_history, (case.get("id", 1), case.get("h")))
+                    }.get(case.get("kind"), (run_case, (case.get("concrete", 0), case.get("c"))))
+        got, dead = _split_crashes(safe_pmap(fn, [item]))
+        report_crashes(ctx, dead, "replay")
+        if dead:
+            return
     if case.get("kind") == "scale":
         rec = run_scale((case.get("id", 1), case["sc"]))
         print("replay observed:", rec["obs"], "engines same:", rec["same"])
